@@ -57,6 +57,11 @@ CHECKS = {
              note="'Eventually' = by the second forced full collection after the pattern ended. Liveness is read from the collector's own reachable flags.", ref="DESIGN.md §5 C19"),
 }
 NOT_YET = "check not built yet in this session (planned in DESIGN.md §5); no claim is made"
+NA = {
+ "C13": "not built: the reference hygienic expander and colliding-macro generator planned in DESIGN_plan.md §5 C13 were not implemented in the time available; the technique applies, no claim is made",
+ "C14": "not built: the module-graph generator and visibility model planned in DESIGN_plan.md §5 C14 were not implemented in the time available; no claim is made (module *mode* of single scripts is exercised by C01/C02/C08/C09/C10/C11)",
+ "C20": "not built: the Rust-side conversion / registered-function / lent-reference driver planned in DESIGN_plan.md §5 C20 was not implemented in the time available; no claim is made",
+}
 man = {
  "version": 1,
  "setup_cmd": "./setup.sh",
@@ -69,6 +74,7 @@ man = {
  },
  "engines": [
   {"name": "vharness", "path": "harness/", "serves_properties": sorted(CHECKS), "kind_free_text": "Rust binary embedding the real engine with hooks on; fork-per-case isolation; JSONL in/out"},
+  {"name": "rcmiri", "path": "rcmiri/", "serves_properties": ["C05"], "kind_free_text": "steel-rc history driver with shadow model; native + cargo miri"},
   {"name": "vlib", "path": "vlib/", "serves_properties": sorted(CHECKS), "kind_free_text": "Python generators, reference models, oracles, evidence writer"},
  ],
  "checks": [],
@@ -90,12 +96,12 @@ for p in props:
             "thorough_cmd": "./check %s --tier thorough" % pid,
             "evidence_file": "evidence/%s.json" % pid,
             "replay_cmd_template": "./check %s --replay {path}" % pid,
-            "engine": "vharness",
+            "engine": "rcmiri" if pid == "C05" else "vharness",
             "level_claimed": {"category": "exploration", "text": c["text"], "design_ref": c["ref"]},
             "level_note": c["note"],
             "technique": c["technique"],
         })
     else:
-        man["not_applicable"].append({"property_id": pid, "reason": NOT_YET})
+        man["not_applicable"].append({"property_id": pid, "reason": NA.get(pid, NOT_YET)})
 json.dump(man, open(os.path.join(HERE, "MANIFEST.json"), "w"), indent=1)
 print("checks:", [c["property_id"] for c in man["checks"]])
